@@ -488,9 +488,11 @@ pub fn zbsdiff_build(control: &[(i64, i64, i64)], diff: &[u8], extra: &[u8], out
     let e = zlib(extra);
     let (cs, ds) = size_fields.unwrap_or((c.len() as i64, d.len() as i64));
     let mut p = b"ZBSDIFF1".to_vec();
-    p.extend_from_slice(&cs.to_be_bytes());
-    p.extend_from_slice(&ds.to_be_bytes());
-    p.extend_from_slice(&output_size.to_be_bytes());
+    // header fields are little-endian like the control values (the doc comment in
+    // zbsdiff/header.rs says big-endian, the code and the CDN fixtures are little-endian)
+    p.extend_from_slice(&offtout(cs));
+    p.extend_from_slice(&offtout(ds));
+    p.extend_from_slice(&offtout(output_size));
     p.extend(c);
     p.extend(d);
     p.extend(e);
@@ -584,9 +586,9 @@ fn zbsdiff_seeds() -> Vec<Seed> {
     let d = zlib(&[0, 1, 0, 0, 2]);
     let e = zlib(b"XYZ");
     let mut p = b"ZBSDIFF1".to_vec();
-    p.extend_from_slice(&(c.len() as i64).to_be_bytes());
-    p.extend_from_slice(&(d.len() as i64).to_be_bytes());
-    p.extend_from_slice(&8i64.to_be_bytes());
+    p.extend_from_slice(&offtout(c.len() as i64));
+    p.extend_from_slice(&offtout(d.len() as i64));
+    p.extend_from_slice(&offtout(8));
     p.extend(c);
     p.extend(d);
     p.extend(e);
